@@ -2,6 +2,10 @@
 // (pm_thread and pm_pipeline) over loopback TCP; a wire-reader thread on the peer socket records the byte stream.  Oracle: MsgSeqNums on
 // the wire are start..start+N-1, each once and in increasing wire order; every id transmitted exactly once; the stored copy under each
 // number is the transmitted message; ThreadSanitizer (this harness is meant for the tsan flavour; it also runs under asan) reports races.
+// In part of the cases the peer also sends ResendRequests while the threads are sending (one outstanding at a time): the replay runs on the
+// session's reader thread concurrently with the senders' stores.  Oracle for the replay: every number below the highest one the peer had
+// seen when it asked was stored by then (sends are serialised: a message is stored before the next one is written), so it must come back as
+// a PossDup copy of what was transmitted, in ascending order, never covered by a gap fill.
 #include <fix8/f8includes.hpp>
 #include "utest_types.hpp"
 #include "utest_router.hpp"
@@ -95,15 +99,55 @@ static void one_case(long long n, uint64_t seed, const std::string& dir)
 	if (connect(peer, (sockaddr *)&a, sizeof a)) { perror("connect"); exit(2); }
 	const int fd = accept(lsn, nullptr, nullptr);
 	std::string wire;
+	const unsigned first_seq_hint = 1;	// fresh stores: numbering starts at 1
 	std::atomic<bool> stop_reader{false};
+	const bool resend_mode = r.chance(45);
+	const int resend_gap = (int)r.range(5, 60);	// new messages seen between the end of one answer and the next request
+	struct Req { unsigned begin, end, seen_hi; size_t wire_msg_index; };
+	std::vector<Req> reqs;	// written by the wire reader only; read after it is joined
+	uint64_t req_seed = seed * 7919 + (uint64_t)n;
 	std::thread wreader([&] {
 		char buf[65536];
+		vh::Rng rr(req_seed);
+		size_t parsed = 0, nmsgs = 0; unsigned hi = 0, peer_seq = 1; bool outstanding = false; int since = 0;
 		for (;;) {
 			pollfd p{peer, POLLIN, 0};
 			const int pr = poll(&p, 1, 20);
 			if (pr > 0) { ssize_t k = recv(peer, buf, sizeof buf, 0); if (k < 0 && (errno == EINTR || errno == EAGAIN)) continue; if (k <= 0) break; wire.append(buf, (size_t)k); }
 			else if (pr < 0 && errno == EINTR) continue;
 			else if (stop_reader.load()) break;
+			if (!resend_mode) continue;
+			// incremental look at the complete messages received so far
+			for (;;) {
+				if (wire.size() < parsed + 20 || wire.compare(parsed, 2, "8=")) break;
+				const size_t j = wire.find("\x01" "9=", parsed); if (j == std::string::npos) break;
+				const size_t k = wire.find('\x01', j + 3); if (k == std::string::npos) break;
+				const long bl = atol(wire.c_str() + j + 3);
+				const size_t end = k + 1 + (size_t)bl + 7;
+				if (bl <= 0 || end > wire.size()) break;
+				const std::string m = wire.substr(parsed, end - parsed);
+				parsed = end; ++nmsgs;
+				const unsigned sq = (unsigned)atol(field(m, "34").c_str());
+				const bool dup = field(m, "43") == "Y", gf = field(m, "35") == "4";
+				if (!dup && !gf) { if (sq > hi) hi = sq; ++since; }
+				else if (outstanding && !reqs.empty()) {
+					// the answer is complete once it has reached the last number that was certainly stored when we asked
+					const unsigned upto = gf ? (unsigned)atol(field(m, "36").c_str()) - 1 : sq;
+					// (a request 'to the latest' has no recognisable end: it is the last one of its case)
+					if (reqs.back().end && upto >= reqs.back().end) { outstanding = false; since = 0; }
+				}
+			}
+			if (!outstanding && since >= resend_gap && hi > first_seq_hint + 2 && reqs.size() < 12) {
+				Req q; q.seen_hi = hi; q.begin = (unsigned)rr.range(first_seq_hint, hi - 1); q.end = rr.chance(25) ? 0 : (unsigned)rr.range(q.begin, hi - 1); q.wire_msg_index = nmsgs;
+				char body[200], msg[300];
+				Tickval tv(true); struct tm tmv; time_t secs = (time_t)tv.secs(); gmtime_r(&secs, &tmv);
+				char ts[32]; strftime(ts, sizeof ts, "%Y%m%d-%H:%M:%S", &tmv);
+				const int bn = snprintf(body, sizeof body, "35=2\x01" "49=CLI\x01" "56=SRV\x01" "34=%u\x01" "52=%s\x01" "7=%u\x01" "16=%u\x01", peer_seq++, ts, q.begin, q.end);
+				int mn = snprintf(msg, sizeof msg, "8=FIX.4.2\x01" "9=%d\x01" "%s", bn, body);
+				unsigned ck = 0; for (int i = 0; i < mn; ++i) ck += (unsigned char)msg[i];
+				mn += snprintf(msg + mn, sizeof msg - mn, "10=%03u\x01", ck % 256);
+				if (::send(peer, msg, (size_t)mn, MSG_NOSIGNAL) == mn) { reqs.push_back(q); outstanding = true; }
+			}
 		}
 	});
 	std::vector<std::string> stored;	// read back before teardown: index = seqnum
@@ -162,17 +206,70 @@ static void one_case(long long n, uint64_t seed, const std::string& dir)
 	std::map<std::string, int> ids; bool ok = true;
 	unsigned expect = first_seq;
 	uint64_t order_hash = 1469598103934665603ULL;
+	std::vector<std::string> sent_by_num;	// the new message transmitted under each number
+	long new_app = 0;
+	// strip what every retransmission legitimately changes (length, PossDupFlag, times, checksum)
+	auto core = [](const std::string& m) {
+		std::string o; size_t i = 0;
+		while (i < m.size()) {
+			size_t e = m.find('\x01', i); if (e == std::string::npos) e = m.size();
+			const std::string f = m.substr(i, e - i);
+			if (f.compare(0, 2, "9=") && f.compare(0, 3, "43=") && f.compare(0, 3, "52=") && f.compare(0, 4, "122=") && f.compare(0, 3, "10=")) o += f + "|";
+			i = e + 1;
+		}
+		return o;
+	};
+	size_t ri = 0; unsigned cover = 0;	// replay oracle state: request being answered, next number its answer must cover
+	long replayed = 0, gapfills = 0;
 	for (auto& m : msgs) {
+		const size_t mi = (size_t)(&m - &msgs[0]);
 		const unsigned s = (unsigned)atol(field(m, "34").c_str());
 		const std::string id = field(m, "11");
-		if (s != expect && ok) { snprintf(d, sizeof d, "threads=%d: message %ld on the wire carries MsgSeqNum %u, expected %u (id %s)", nthreads, (long)(&m - &msgs[0]), s, expect, id.c_str()); R.viol("oracle:wire-numbers-not-consecutive|" + cls, d); ok = false; }
+		const bool dup = field(m, "43") == "Y", gf = field(m, "35") == "4";
+		while (ri < reqs.size() && ri + 1 < reqs.size() && reqs[ri + 1].wire_msg_index <= mi) { ++ri; cover = 0; }
+		if (dup || gf) {
+			// part of the answer to request ri
+			if (reqs.empty() || reqs[ri].wire_msg_index > mi) { if (ok) { snprintf(d, sizeof d, "a retransmission (number %u) appears on the wire before any resend request was sent", s); R.viol("oracle:unrequested-retransmission|" + cls, d); ok = false; } continue; }
+			const Req& q = reqs[ri];
+			if (!cover) cover = q.begin;
+			const unsigned certain = q.end ? q.end : q.seen_hi - 1;	// numbers up to here were stored before the request existed (end < seen_hi)
+			if (gf) {
+				++gapfills;
+				const unsigned nsn = (unsigned)atol(field(m, "36").c_str());
+				for (unsigned k = std::max(s, cover); k < nsn && k <= certain && ok; ++k) if (k < sent_by_num.size() && !field(sent_by_num[k], "11").empty()) {
+					snprintf(d, sizeof d, "threads=%d: resend request [%u,%u] sent after number %u had been seen on the wire: gap fill %u->%u covers application message %u (id %s), which was stored by then", nthreads, q.begin, q.end, q.seen_hi, s, nsn, k, field(sent_by_num[k], "11").c_str());
+					R.viol("oracle:gapfill-skips-stored-message|" + cls, d); ok = false;
+				}
+				if (nsn > cover) cover = nsn;
+			} else {
+				++replayed;
+				if (s < cover && ok && s >= q.begin) { snprintf(d, sizeof d, "resend request [%u,%u]: retransmission of %u after the answer had already reached %u (not ascending)", q.begin, q.end, s, cover); R.viol("oracle:replay-not-ascending|" + cls, d); ok = false; }
+				if (s > cover && ok) for (unsigned k = cover; k < s && k <= certain; ++k) if (k >= q.begin && k < sent_by_num.size() && !field(sent_by_num[k], "11").empty()) {
+					snprintf(d, sizeof d, "threads=%d: resend request [%u,%u] (highest seen %u): the answer jumps from %u to %u without retransmitting or gap-filling application message %u", nthreads, q.begin, q.end, q.seen_hi, cover, s, k);
+					R.viol("oracle:replay-skips-stored-message|" + cls, d); ok = false; break;
+				}
+				if (s < sent_by_num.size() && !sent_by_num[s].empty() && core(sent_by_num[s]) != core(m) && ok) {
+					snprintf(d, sizeof d, "retransmission of number %u (id %s, %zu bytes) is not the message transmitted under that number (id %s, %zu bytes)", s, id.c_str(), m.size(), field(sent_by_num[s], "11").c_str(), sent_by_num[s].size());
+					R.viol("oracle:replayed-copy-differs|" + cls, d); ok = false;
+				}
+				if ((s >= sent_by_num.size() || sent_by_num[s].empty()) && ok) { snprintf(d, sizeof d, "retransmission of number %u which had not been transmitted before", s); R.viol("oracle:replayed-copy-differs|" + cls, d); ok = false; }
+				if (s + 1 > cover) cover = s + 1;
+			}
+			continue;
+		}
+		if (s != expect && ok) { snprintf(d, sizeof d, "threads=%d: message %ld on the wire carries MsgSeqNum %u, expected %u (id %s)", nthreads, (long)mi, s, expect, id.c_str()); R.viol("oracle:wire-numbers-not-consecutive|" + cls, d); ok = false; }
 		expect = s + 1;
+		if (s >= sent_by_num.size()) sent_by_num.resize(s + 1);
+		sent_by_num[s] = m;
+		if (id.empty()) continue;	// an admin message of the session's own
+		++new_app;
 		++ids[id];
 		order_hash = (order_hash ^ (uint64_t)(id.size() > 1 ? id[1] : 0)) * 1099511628211ULL;
 		if (s < stored.size() && stored[s] != m && ok) { snprintf(d, sizeof d, "number %u: wire message (id %s, %zu bytes) differs from the stored copy (%zu bytes, id %s)", s, id.c_str(), m.size(), stored[s].size(), field(stored[s], "11").c_str()); R.viol("oracle:stored-copy-differs-from-wire|" + cls, d); ok = false; }
 	}
+	R.stat("resend_requests", (long long)reqs.size()); R.stat("retransmissions_checked", replayed); R.stat("gap_fills_seen", gapfills);
 	if (!drained) { R.viol("inconclusive:writer-not-drained-after-120s|" + cls, "the pipelined writer had not numbered all queued messages after 120 s"); ok = false; }
-	if ((long)msgs.size() != total && ok) { snprintf(d, sizeof d, "threads=%d per=%d: %ld messages sent, %zu on the wire", nthreads, per, total, msgs.size()); R.viol("oracle:message-count-differs|" + cls, d); ok = false; }
+	if (new_app != total && ok) { snprintf(d, sizeof d, "threads=%d per=%d: %ld messages sent, %ld on the wire", nthreads, per, total, new_app); R.viol("oracle:message-count-differs|" + cls, d); ok = false; }
 	for (auto& p : ids) if (p.second != 1 && ok) { R.viol("oracle:message-transmitted-more-than-once|" + cls, "id " + p.first + " appears " + std::to_string(p.second) + " times"); ok = false; }
 	R.stat("runs"); R.stat("messages_sent", total); R.stat("wire_messages", (long long)msgs.size());
 	R.distinct("wire_interleaving", order_hash);
